@@ -8,6 +8,7 @@
 -- (`a:b` for q64), lists are comma separated, rows are separated by ';', layers by '|'.
 import Winter.Drv.FriUtil
 import Winter.Gen.FriOpts
+import Winter.Gen.FriPos
 
 namespace Drv.C15
 open Model Model.Fri Drv.Fri
@@ -74,12 +75,21 @@ def handle : List String → String
   | ["pos", n, fold, parts, positions] =>
     match n.toNat?, fold.toNat?, parts.toNat?, parseList (fun s => s.toNat?) positions with
     | some n, some fold, some parts, some ps =>
-      match foldPositions ps n fold with
-      | none => "panic"
-      | some folded =>
-        match mapPositionsToIndexes folded n fold parts with
+      -- the model, and the definitions regenerated from fri/src/folding/mod.rs / fri/src/utils.rs on this run
+      -- (tie T: a difference between the two shows up as a disagreement with the compiled code)
+      let m := match foldPositions ps n fold with
         | none => "panic"
-        | some idx => s!"{printList toString folded} {printList toString idx}"
+        | some folded =>
+          match mapPositionsToIndexes folded n fold parts with
+          | none => "panic"
+          | some idx => s!"{printList toString folded} {printList toString idx}"
+      let g := if Gen.FriPos.fold_positions_ok ps n fold then
+          let folded := Gen.FriPos.fold_positions ps n fold
+          if Gen.FriPos.map_positions_to_indexes_ok folded n fold parts then
+            s!"{printList toString folded} {printList toString (Gen.FriPos.map_positions_to_indexes folded n fold parts)}"
+          else "panic"
+        else "panic"
+      if m == g then m else s!"{m} gen={g}"
     | _, _, _, _ => "bad-op"
   | ["nl", b, fold, r, d] =>
     match b.toNat?, fold.toNat?, r.toNat?, d.toNat? with
